@@ -6,6 +6,7 @@ import Revm.Model.Static
    one instruction in an interpreter with `is_static = true` (`Model.Static.stepStatic`).
 
 `static tx <spec> <entry> <schemes csv | -> <lvl> <op> <prefixes>` → `out=<word> open=0 fr=<frames>`
+(`static etx …`: the same with EOF containers and EXT*CALL, OSAKA on)
    the harness runs a transaction entry → L1 → … → Lk (`entry` = static | call, then one scheme per deeper
    level) in which level `lvl` attempts `op`; frames are listed in `call_end` order as
    `scheme:is_static:result:state`. The expected reply is computed from the model: `childIsStatic` gives every
@@ -75,9 +76,15 @@ def opToks : List String :=
   ["none", "sstore", "sstoresame", "tstore", "log0", "log1", "log2", "log3", "log4", "create", "create2",
    "selfdestruct", "callvalue", "sload", "balance", "call0", "callpre", "callcodev", "tload", "extcodehash"]
 
+def xschemeToks : List String := ["xcall", "xdelegate", "xstatic"]
+def xopToks : List String :=
+  ["none", "sstore", "sstoresame", "tstore", "log0", "log1", "log2", "log3", "log4", "eofcreate", "xcallvalue",
+   "sload", "tload", "balance", "xcall0", "xcallpre"]
+
 def schemeOfTok (s : String) : Scheme :=
   if s = "call" then .call else if s = "callcode0" ∨ s = "callcodev" then .callCode
-  else if s = "delegate" then .delegateCall else .staticCall
+  else if s = "delegate" then .delegateCall else if s = "xcall" then .extCall
+  else if s = "xdelegate" then .extDelegateCall else if s = "xstatic" then .extStaticCall else .staticCall
 
 def frameStr (name : String) (st : Bool) (res : String) (changed : Bool) : String :=
   s!"{name}:{boolStr st}:{res}:{if st then "e" else if changed then "c" else "u"}"
@@ -93,18 +100,19 @@ def guardedOpcode (op : String) : Option Nat :=
   else if op = "log0" then some 0xa0 else if op = "log1" then some 0xa1 else if op = "log2" then some 0xa2
   else if op = "log3" then some 0xa3 else if op = "log4" then some 0xa4
   else if op = "create" then some 0xf0 else if op = "create2" then some 0xf5
-  else if op = "selfdestruct" then some 0xff else none
+  else if op = "selfdestruct" then some 0xff else if op = "eofcreate" then some 0xec else none
 
 /-- what the attempted operation does to its frame: in a static frame the model's guard decides; in a
 non-static frame the operation is performed (`changed` = it changes the world state) -/
-def attempt (spec : Nat) (st : Bool) (op : String) : Att :=
+def attempt (spec : Nat) (eof : Bool) (st : Bool) (op : String) : Att :=
   match guardedOpcode op with
   | some opc =>
-    if st then .halt (guardResult spec false opc).name
+    if st then .halt (guardResult spec eof opc).name
     else if op = "tstore" ∧ !enabled spec CANCUN then .halt "NotActivated"
     else if op = "create2" ∧ !enabled spec PETERSBURG then .halt "NotActivated"
     else if op = "selfdestruct" then .selfdestruct
     else if op = "create" ∨ op = "create2" then .cont ["Create:0:Return:c"] true
+    else if op = "eofcreate" then .cont ["EofCreate:0:ReturnContract:c"] true
     else .cont [] (op ≠ "sstoresame")
   | none =>
     if op = "callvalue" then
@@ -113,6 +121,14 @@ def attempt (spec : Nat) (st : Bool) (op : String) : Att :=
         | some o => .halt o.res.name
         | none => .halt "unmodelled"
       else .cont [frameStr "Call" false "Stop" true] true
+    else if op = "xcallvalue" then
+      if st then
+        match stepStatic spec true 0xf8 0 [0xb0, 0, 0, 1] with
+        | some o => .halt o.res.name
+        | none => .halt "unmodelled"
+      else .cont [frameStr "ExtCall" false "Stop" true] true
+    else if op = "xcall0" then .cont [frameStr "ExtCall" (childIsStatic .extCall st) "Stop" false] false
+    else if op = "xcallpre" then .cont [frameStr "ExtCall" (childIsStatic .extCall st) "Return" false] false
     else if op = "tload" ∧ !enabled spec CANCUN then .halt "NotActivated"
     else if op = "extcodehash" ∧ !enabled spec CONSTANTINOPLE then .halt "NotActivated"
     else if op = "call0" then .cont [frameStr "Call" (childIsStatic .call st) "Stop" false] false
@@ -129,9 +145,9 @@ structure Sim where
 
 /-- level `i` (0 = entry contract) reached by a call named `name` with static flag `st`; `rest` = the schemes
 by which the deeper levels are called -/
-def simLevel (spec lvl : Nat) (op : String) : Nat → String → Bool → List String → Sim
+def simLevel (spec : Nat) (eof : Bool) (lvl : Nat) (op : String) : Nat → String → Bool → List String → Sim
   | i, name, st, rest =>
-    let att := if i = lvl then attempt spec st op else .cont [] false
+    let att := if i = lvl then attempt spec eof st op else .cont [] false
     match att with
     | .halt res => { frames := [frameStr name st res false], ok := false, res := res, r := 0, changed := false }
     | .selfdestruct =>
@@ -145,7 +161,7 @@ def simLevel (spec lvl : Nat) (op : String) : Nat → String → Bool → List S
             changed := false }
         else
           let scheme := schemeOfTok sch
-          let child := simLevel spec lvl op (i + 1) scheme.name (childIsStatic scheme st) rest'
+          let child := simLevel spec eof lvl op (i + 1) scheme.name (childIsStatic scheme st) rest'
           let ch' := ch || (child.ok && child.changed)
           { frames := extra ++ child.frames ++ [frameStr name st "Return" ch'], ok := true, res := "Return",
             r := 1 + 2 * child.ok.toNat + 4 * child.r, changed := ch' }
@@ -162,7 +178,26 @@ def handleTx (t : List String) : String :=
       if schemes.length > 3 || !schemes.all schemeToks.contains then "bad-op" else
       if lvl > k || !opToks.contains op || (decide (lvl = 0) != decide (op = "none")) then "bad-op" else
       if pres.length ≠ k + 1 || !pres.all (fun p => (parseBytes? p).isSome) then "bad-op" else
-      let s := simLevel spec lvl op 0 "Call" false (entry :: schemes)
+      let s := simLevel spec false lvl op 0 "Call" false (entry :: schemes)
+      let out := if s.ok then toHex s.r else s!"halt:{s.res}"
+      s!"out={out} open=0 fr={",".intercalate s.frames}"
+    | _, _ => "bad-op"
+  | _ => "bad-op"
+
+/-- the EOF counterpart: EXTCALL / EXTDELEGATECALL / EXTSTATICCALL between EOF containers under OSAKA -/
+def handleEtx (t : List String) : String :=
+  match t with
+  | [spec, entry, schemes, lvl, op, prefixes] =>
+    match spec.toNat?, lvl.toNat? with
+    | some spec, some lvl =>
+      let schemes := if schemes = "-" then [] else schemes.splitOn ","
+      let k := schemes.length + 1
+      let pres := prefixes.splitOn "/"
+      if !validSpec spec || spec < OSAKA || !(entry = "xstatic" || entry = "xcall") then "bad-op" else
+      if schemes.length > 3 || !schemes.all xschemeToks.contains then "bad-op" else
+      if lvl > k || !xopToks.contains op || (decide (lvl = 0) != decide (op = "none")) then "bad-op" else
+      if pres.length ≠ k + 1 || !pres.all (fun p => (parseBytes? p).isSome) then "bad-op" else
+      let s := simLevel spec true lvl op 0 "Call" false (entry :: schemes)
       let out := if s.ok then toHex s.r else s!"halt:{s.res}"
       s!"out={out} open=0 fr={",".intercalate s.frames}"
     | _, _ => "bad-op"
@@ -172,6 +207,7 @@ def handle (t : List String) : String :=
   match t with
   | "instr" :: r => handleInstr r
   | "tx" :: r => handleTx r
+  | "etx" :: r => handleEtx r
   | _ => "bad-op"
 
 end Driver.Static
